@@ -30,7 +30,7 @@ ASSUMPTIONS = [
 ]
 VERIF = os.path.dirname(os.path.dirname(os.path.dirname(os.path.abspath(__file__))))
 CORPUS = os.path.join(VERIF, "corpus", "client")
-MON = {"c07": "mon-c07", "c11": "mon-c11", "c20": "mon-c20"}
+MON = {"c07": "mon-c07", "c11": "mon-c11", "c20": "mon-c20", "iface": "mon-iface"}
 
 
 def slug(msg):
@@ -288,6 +288,8 @@ def merge(res, ctx, outs, focus, pid):
             sc = shrink(ctx.model, d["scenario"], focus, (), "dis", None) if len(res.disagreements) < 2 else d["scenario"]
             res.disagreements.append({"component": "client-net", "scenario": sc, "detail": d["detail"]})
         for m in o["mon"]:
+            if m["monitor"] == "iface" and pid == "C07":
+                m = dict(m, monitor="c07")  # the interface contract is checked (and reported) with C07
             if m["monitor"] != pid.lower():
                 continue  # another property's monitor: reported by that property's check
             key = slug(m["messages"][0])
@@ -299,8 +301,8 @@ def net_scenarios(ctx, res, n, focus, pid=None):
     """n scenarios of the real client vs ClientNet + monitors; thorough tier: 16 worker processes."""
     pid = pid or focus.upper()
     want = tuple(m for m in ("c07", "c11", "c20") if m == focus) or ("c07",)
-    if focus == "c08":
-        want = ("c07",)
+    if focus in ("c08", "c07"):
+        want = ("c07", "iface")
     base = ctx.rng.randrange(1 << 30)
     if ctx.tier == "thorough":
         nw = 16
@@ -388,9 +390,9 @@ def normhosts_cases(ctx, res, n):
         res.evaluations += 1
     got = ctx.model("client", lines)
     for l, e, g, f in zip(lines, expect, got, inputs):
-        if e != g:
+        if e != g and len(res.disagreements) < 10:
             res.disagreements.append({"component": "client-cache", "request": l, "input": f, "impl": e, "model": g})
-        elif e != ["error"]:
+        if e != ["error"] and len(res.monitor_failures) < 10:
             # monitor: unique, sorted, default port (C07_normalize_hosts)
             hs = e[0].split(" ")[1]
             hp = [] if hs == "-" else [(bytes.fromhex(x.split(":")[0] if x.split(":")[0] != "-" else "").decode(), int(x.split(":")[1])) for x in hs.split(",")]
@@ -408,7 +410,7 @@ def run(ctx, res):
                 "least two payload-carrying broker requests were issued; distinct by content hash. kernel: _normalize_hosts on generated forms.")
     run_corpus(ctx, res, ["c07-", "net-"], "c07", "C07")
     normhosts_cases(ctx, res, ctx.scale(400, 5000))
-    net_scenarios(ctx, res, ctx.scale(900, 40000), "c07")
+    net_scenarios(ctx, res, ctx.scale(3000, 60000), "c07")
 
 
 def search(ctx, res, broken):
